@@ -11,6 +11,7 @@ import (
 	"fmt"
 	"sort"
 	"sync/atomic"
+	"time"
 
 	"github.com/0chain/common/core/statecache"
 	"github.com/0chain/common/core/util"
@@ -112,6 +113,22 @@ func Gen(rt *rapid.T, maxRounds int, withPrune bool) *Script {
 	return s
 }
 
+// SaveCtx supplies the context of every SaveChanges call. A check may install a context whose Done() pauses: the
+// caller's select evaluates ctx.Done() first, so this stands for a caller that is descheduled just before it waits
+// for the saving goroutine.
+var SaveCtx = context.Background
+
+// SlowCtx is a context whose Done() returns after a short pause.
+type SlowCtx struct {
+	context.Context
+	Pause time.Duration
+}
+
+func (c SlowCtx) Done() <-chan struct{} {
+	time.Sleep(c.Pause)
+	return c.Context.Done()
+}
+
 var dirSeq atomic.Int64
 
 // NewDir returns a fresh persistent directory name.
@@ -153,7 +170,7 @@ func ExecRound(dir string, prevRoot []byte, rd Round) (root []byte, dead []strin
 		dead = append(dead, string(d.GetHashBytes()))
 	}
 	sort.Strings(dead)
-	if err = block.SaveChanges(context.Background(), pndb, false); err != nil {
+	if err = block.SaveChanges(SaveCtx(), pndb, false); err != nil {
 		return root, dead, err
 	}
 	if err = pndb.RecordDeadNodes(deadNodes, rd.Version); err != nil {
@@ -261,7 +278,7 @@ func Save(pndb *util.PNodeDB, b *Block) (dead []string, err error) {
 		dead = append(dead, string(d.GetHashBytes()))
 	}
 	sort.Strings(dead)
-	if err = b.Trie.SaveChanges(context.Background(), pndb, false); err != nil {
+	if err = b.Trie.SaveChanges(SaveCtx(), pndb, false); err != nil {
 		return
 	}
 	err = pndb.RecordDeadNodes(deadNodes, b.Rd.Version)
